@@ -142,6 +142,26 @@ static void enumerate(void) {
         shape_t sh; memset(&sh, 0, sizeof sh); sh.ncols = 2; sh.nrg = 2; sh.rg_rows[0] = 4; sh.rg_rows[1] = 3; for (int c = 0; c < 2; c++) { sh.opt[c] = h.cols[c].opt; sh.ptype[c] = h.cols[c].ptype; sh.tlen[c] = h.cols[c].tlen; }
         char fd[700]; snprintf(fd, sizeof fd, "dmg:carquet;all-null-page;%s", tbl_desc(&h)); g_applied = 0; damage_all(img, len, &sh, fd, deep); mc_count("damages.applied", g_applied); free(img); ref_arena_free(&RA);
     }
+    /* pages whose CRC-32 is one of the extreme values (0 is a legal checksum, not "no checksum") */
+    mc_stage("reference-written-seeds.page-crc-extremes");
+    for (int target = 0; target < 3; target++) for (int t = 0; t < 2; t++) {
+        if (!mc_next()) continue;
+        static const uint32_t TG[] = { 0x00000000u, 0xffffffffu, 0x00000001u };
+        /* one REQUIRED PLAIN uncompressed column: the page body is the values; the last 4 body bytes are solved so that the body's CRC-32 is the target */
+        int N = 9, w = t ? 8 : 4; static uint8_t body[128]; for (int i = 0; i < N * w; i++) body[i] = (uint8_t)(i * 29 + 7);
+        { uint32_t T[256]; for (uint32_t i = 0; i < 256; i++) { uint32_t c = i; for (int k = 0; k < 8; k++) c = (c & 1) ? (c >> 1) ^ 0xEDB88320u : c >> 1; T[i] = c; }
+          size_t n = (size_t)(N * w); uint32_t cur = 0xffffffffu; for (size_t i = 0; i + 4 < n + 0 && i < n - 4; i++) cur = (cur >> 8) ^ T[(cur ^ body[i]) & 0xff];
+          uint32_t v = ~TG[target]; for (int i = 0; i < 4; i++) { uint32_t tix = 0; for (uint32_t q = 0; q < 256; q++) if ((T[q] >> 24) == (v >> 24)) tix = q; v = ((v ^ T[tix]) << 8) | tix; }
+          uint32_t patch = v ^ cur; body[n - 4] = (uint8_t)patch; body[n - 3] = (uint8_t)(patch >> 8); body[n - 2] = (uint8_t)(patch >> 16); body[n - 1] = (uint8_t)(patch >> 24);
+          if (ref_crc32_ieee(body, n) != TG[target]) mc_harness_error("could not force a page CRC of %08x", TG[target]); }
+        ref_schema_elem sc[2]; memset(sc, 0, sizeof sc); sc[0].name = (ref_bin){ (const uint8_t*)"schema", 6, true }; sc[0].has_num_children = true; sc[0].num_children = 1; sc[1].name = (ref_bin){ (const uint8_t*)"v", 1, true }; sc[1].has_type = true; sc[1].type = t ? PT_INT64 : PT_INT32; sc[1].has_rep = true; sc[1].rep = 0;
+        ref_coldata col; memset(&col, 0, sizeof col); col.ptype = t ? PT_INT64 : PT_INT32; col.nlevels = N; col.nvalues = N; col.fixed = body; static int16_t zl[16]; col.def = zl; col.rep = zl; ref_chunk_layout L; memset(&L, 0, sizeof L); L.crc = true; int64_t rows = N;
+        ref_write_req rq; memset(&rq, 0, sizeof rq); rq.schema = sc; rq.nschema = 2; rq.nleaves = 1; rq.nrg = 1; rq.rg_rows = &rows; rq.cols = &col; rq.layouts = &L; ref_buf img; ref_buf_init(&img);
+        if (ref_pq_write(&RA, &rq, &img, NULL, 0, NULL)) mc_harness_error("reference writer failed");
+        char fd[160]; snprintf(fd, sizeof fd, "dmg:ref;page-crc=%08x;col=%s;n=%d", TG[target], t ? "i64" : "i32", N); mc_desc("%s", fd); mc_case_key(mc_mix(0x14e, ((uint64_t)target << 8) | (uint64_t)t)); mc_nontrivial();
+        shape_t sh; memset(&sh, 0, sizeof sh); sh.ncols = 1; sh.nrg = 1; sh.rg_rows[0] = N; sh.ptype[0] = col.ptype;
+        g_applied = 0; damage_all(img.p, img.n, &sh, fd, deep); mc_count("damages.applied", g_applied); ref_buf_free(&img); ref_arena_free(&RA);
+    }
     mc_stage("reference-written-seeds.dictionary-page");
     for (int cd = 0; cd < 5; cd++) for (int t = 0; t < 3; t++) for (int opt = 0; opt < 2; opt++) {
         if (!mc_next()) continue;
